@@ -35,7 +35,7 @@ func (c c05case) String() string {
 }
 
 var c05strategies = []string{"off-polynomial-share-in", "flip-share-out", "alter-commitment", "alter-reveal", "copy-honest-key", "malformed-share-truncated", "malformed-share-fewer-elements",
-	"malformed-share-garbage", "duplicate-share-changed", "duplicate-commitment-changed", "duplicate-reveal-changed", "withhold-share", "withhold-commitment", "withhold-reveal", "reveal-before-commitment", "reveal-mismatching-valid-key", "commit-to-garbage-and-reveal-it", "none"}
+	"malformed-share-garbage", "duplicate-share-changed", "duplicate-commitment-changed", "duplicate-reveal-changed", "withhold-share", "withhold-commitment", "withhold-reveal", "reveal-before-commitment", "reveal-mismatching-valid-key", "second-commitment-for-another-key", "commit-to-garbage-and-reveal-it", "none"}
 
 type c05result struct {
 	d         *drun
@@ -76,6 +76,43 @@ func runC05(cs c05case, rng *mrand.Rand) c05result {
 			return []dmsg{m}
 		}
 		isShare, isCommit, isReveal := r == 1 && !bc, r == 2, r == 3
+		if cs.Strategy == "second-commitment-for-another-key" {
+			// the Byzantine party's first commitment goes out unchanged; once an honest party has revealed its key, the Byzantine party
+			// sends a SECOND commitment (to that honest party's key: a valid point) and then reveals that key. A commitment binds:
+			// whoever holds the first one must refuse the reveal. Layout (tag byte + SHA-256 of the reveal body) self-checked on the
+			// Byzantine party's own genuine pair.
+			if m.from == cs.Byz && isCommit && genuineCommit == nil {
+				genuineCommit = append([]byte{}, m.data...)
+			}
+			if m.from == cs.Byz && isReveal {
+				if genuineCommit == nil || len(genuineCommit) != 33 {
+					res.selfOK = false
+				} else if sum := sha256.Sum256(m.data[1:]); !sameBytes(sum[:], genuineCommit[1:]) {
+					res.selfOK = false
+				}
+				if isVictim[m.to] && res.selfOK {
+					return nil // its genuine reveal is withheld from the victims
+				}
+				return []dmsg{m}
+			}
+			if m.from == H && isReveal && captured[3] == nil && genuineCommit != nil && len(genuineCommit) == 33 {
+				captured[3] = append([]byte{}, m.data...)
+				sum := sha256.Sum256(captured[3][1:])
+				second := append([]byte{genuineCommit[0]}, sum[:]...)
+				for _, to := range ids {
+					if to != cs.Byz && isVictim[to] {
+						for _, data := range [][]byte{second, captured[3]} {
+							q := dmsg{from: cs.Byz, to: to, data: data, bcast: true}
+							k := [2]uint16{q.from, q.to}
+							d.q[k] = append(d.q[k], q)
+						}
+						res.effected = true
+						res.mustAbort[to] = true
+					}
+				}
+			}
+			return []dmsg{m}
+		}
 		if cs.Strategy == "reveal-mismatching-valid-key" && m.from == H && isReveal && captured[3] == nil {
 			captured[3] = append([]byte{}, m.data...)
 			// the Byzantine party (whose own commitment went out unchanged) now reveals the honest party's key as its own
